@@ -108,6 +108,8 @@ inductive AddRes where
   | ok | exists_ | noParent | preMismatch
   /-- `save` returned the error of its batch write (only under an injected write fault) -/
   | writeErr
+  /-- `consensusHelper.CheckGroup` refused the group (evaluated after the duplicate-id check) -/
+  | checkFail
   deriving DecidableEq, Repr
 
 def mirrorInsert (m : List Bytes) (id : Bytes) : List Bytes := if id ∈ m then m else id :: m
@@ -474,5 +476,10 @@ def addAll (dur : Nat) : List Group → Chain → Chain × Bool
     `ancestor.GroupHeight = h`, then `AddGroup` of the fork's groups in height order. -/
 def forkSwitch (dur : Nat) (c : Chain) (h : Nat) (gs : List Group) : Chain × Bool :=
   addAll dur gs (rmTo c h)
+
+/-- `AddGroup` of a group the consensus check refuses: `exists` wins over the refusal (the duplicate-id
+    check comes first), nothing is written. `AddGroup(nil)` is refused before anything is read. -/
+def addGroupRefused (c : Chain) (g : Group) : AddRes × Chain :=
+  if shas c.disk g.id then (.exists_, c) else (.checkFail, c)
 
 end Rangers.Model.GroupChain
